@@ -139,7 +139,7 @@ def gen_filter(rng, reqs, listeners, ports, depth=0):
 
 
 async def main(args):
-    out = Out("C02", "c02-e2e", "rule lists (1..10 rules from attribute templates over request.listener / source.host,type,port / target.host,type,port / feature / cidr_match / regex / a run-time-failing filter, combined with ! && ||, deny and filterless rules anywhere) posted through /api/rules, then batches of real requests (http and socks5 listeners on 127.0.0.1 and ::1, TLS http, socks4, reverse; destination as IPv4 literal, IPv6 literal, domain; three origin ports; known source address and port) each with a unique token glued to its handshake. distinct = distinct (listener, destination form, expected outcome class, index of the deciding rule)")
+    out = Out("C02", "c02-e2e", "rule lists (1..10 rules from attribute templates over request.listener / source.host,type,port / target.host,type,port / feature / cidr_match / regex / a run-time-failing filter, combined with ! && ||, deny and filterless rules anywhere) posted through /api/rules (after four lists in ten a list that is rejected is posted as well and must leave no trace), then batches of real requests (http and socks5 listeners on 127.0.0.1 and ::1, TLS http, socks4, reverse; destination as IPv4 literal, IPv6 literal, domain; three origin ports; known source address and port) each with a unique token glued to its handshake. distinct = distinct (listener, destination form, expected outcome class, index of the deciding rule)")
     rng = random.Random(args.seed)
     wd = workdir("c02")
     seen_tokens = []
@@ -173,6 +173,7 @@ async def main(args):
         await A.start()
         n_lists = 200 if args.thorough else 45
         token_n = 0
+        rejected_posts = 0
         for li in range(n_lists):
             # plan the batch first (the source ports are chosen in advance so that rules can mention them)
             reqs = []
@@ -202,6 +203,15 @@ async def main(args):
             if st != 200:
                 out.violation("valid rule list rejected by POST /rules", {"rules": rules, "status": st, "body": body[:300].decode("latin1")})
                 continue
+            if rng.random() < 0.4:
+                # a list that is rejected (its last rule is unusable) must leave the accepted list in charge: its first rules are
+                # unconditional, so any trace of it changes every decision below
+                bad = [{"target": rng.choice(["deny"] + ["k%d" % rng.randrange(K) for _ in range(3)])} for _ in range(rng.randrange(1, 4))]
+                bad.append(rng.choice([{"target": "nosuch"}, {"filter": "request.nosuch == 1", "target": "k0"}, {"filter": "request.target.port ==", "target": "k0"},
+                                       {"filter": "request.target.port + 1", "target": "k0"}]))
+                st2, _, _ = await A.api("POST", "/rules", bad, 10)
+                if st2 != 200:
+                    rejected_posts += 1
             before = [len(o.accepted) for o in origins]
 
             async def one(q):
@@ -298,6 +308,7 @@ async def main(args):
             if li < 3:
                 out.sample({"rules": rules, "requests": [{"listener": q.listener, "src": "%s:%d" % (q.src_host, q.src_port), "dst": "%s:%d" % (q.thost, q.tport), "outcome": q.outcome} for q in reqs]})
         out.setx("rule_lists", n_lists)
+        out.setx("rejected_lists_posted_in_between", rejected_posts)
         if not A.alive():
             out.violation("proxy process died", {"rc": A.exit_status(), "stderr": A.stderr_tail(600)})
     finally:
